@@ -6,7 +6,7 @@ from vlib.workers import ALL, WorkerDied, WorkerSet
 
 PROPERTY = "C03"
 LEVEL = "exploration"
-RULE = ("Chains of depth 0..6 whose links are drawn from {await coroutine, await generator-based coroutine, await object "
+RULE = ("Each point is extracted with and without contexts: nothing but the contexts may differ (frames, lines, hide flags, origins). Chains of depth 0..6 whose links are drawn from {await coroutine, await generator-based coroutine, await object "
         "whose __await__ returns a coroutine wrapper / is a generator / returns a plain generator, async for / __anext__ / "
         "asend / athrow / aclose on a native async generator, asend(VALUE) into a running async generator with VALUE a suspended async generator / generator / coroutine / object with generator-like attributes / int, the anext() builtin in its one- and two-argument forms over a native async generator and over a class-based async iterator (3.10+; plain __anext__ on 3.9)}, outermost object a coroutine, generator, generator-based "
         "coroutine or async generator, ending in a trap (suspending 1-3 times), a future-like non-frame awaitable or a list "
